@@ -666,6 +666,20 @@ def _iter_unused_names(
         }
         # (4) For every (name, node_sequence) in that grouping,
         for name, sequence in name_node_sequences.items():
+            # A function that reads (name) may be called at any later time, so an assignment
+            # of (name) next to it is not known to be unused, even if the function is defined
+            # before the assignment.
+            deferred_readers = [
+                node
+                for node in sequence
+                if any(
+                    any(core.walk(funcdef, ast.Name(id=name, ctx=ast.Load)))
+                    for funcdef in core.walk(
+                        node, (ast.FunctionDef, ast.AsyncFunctionDef, ast.Lambda)
+                    )
+                )
+            ]
+
             _, created_names, required_names = tracing.code_dependencies_outputs(sequence)
             # (7) For every (node) at position (i) in the sequence,
             for i, node in enumerate(sequence):
@@ -678,6 +692,11 @@ def _iter_unused_names(
                 )
                 # (8) If (name) is in its outputs, but (name) is not in the dependencies of
                 # node_sequence[i:],
+                if isinstance(node, (ast.Assign, ast.AnnAssign)) and any(
+                    reader is not node for reader in deferred_readers
+                ):
+                    continue
+
                 if name in node_created:
                     # (9) then (name) is being redundantly defined in node (i).
 
